@@ -771,6 +771,72 @@ func (p Poly) MentionsAtomsOf(q Poly) bool {
 	return n > 0 && all
 }
 
+// c10AppliesAllDue: the routine that carries scheduled events out (Nitro) tests "today == date[cursor] + k" in the
+// condition of a loop whose body advances the cursor — so two events due on one day are both carried out.
+func c10AppliesAllDue(p *Prog, root string) (bool, string) {
+	fi := p.Funcs["hermes.Nitro"]
+	if fi == nil {
+		return false, "hermes.Nitro not found"
+	}
+	field := root[strings.LastIndex(root, ".")+1:]
+	info := fi.Pkg.TypesInfo
+	mentions := func(n ast.Node) bool {
+		f := false
+		ast.Inspect(n, func(m ast.Node) bool {
+			if ix, ok := m.(*ast.IndexExpr); ok {
+				if se, ok := ix.X.(*ast.SelectorExpr); ok && se.Sel.Name == field {
+					if sel, ok := info.Selections[se]; ok && sel.Kind() == types.FieldVal {
+						f = true
+					}
+				}
+			}
+			return true
+		})
+		return f
+	}
+	res, where := false, "no statement of hermes.Nitro tests "+field
+	ast.Inspect(fi.Decl.Body, func(n ast.Node) bool {
+		switch t := n.(type) {
+		case *ast.IfStmt:
+			if mentions(t.Cond) && !res && strings.HasPrefix(where, "no statement") {
+				where = "if at " + p.Pos(t.Pos())
+			}
+		case *ast.ForStmt:
+			if t.Cond != nil && mentions(t.Cond) && c10BodyAdvancesCursor(t.Body, t.Cond) {
+				res, where = true, "loop at "+p.Pos(t.Pos())
+			}
+		}
+		return true
+	})
+	return res, where
+}
+
+// the cursor is the x in date[x.Index]: the body calls x.Inc() as a top-level statement
+func c10BodyAdvancesCursor(body *ast.BlockStmt, cond ast.Expr) bool {
+	cursor := ""
+	ast.Inspect(cond, func(m ast.Node) bool {
+		if ix, ok := m.(*ast.IndexExpr); ok {
+			if se, ok := ix.Index.(*ast.SelectorExpr); ok && se.Sel.Name == "Index" {
+				cursor = types.ExprString(se.X)
+			}
+		}
+		return true
+	})
+	if cursor == "" {
+		return false
+	}
+	for _, s := range body.List {
+		if es, ok := s.(*ast.ExprStmt); ok {
+			if c, ok := es.X.(*ast.CallExpr); ok {
+				if se, ok := c.Fun.(*ast.SelectorExpr); ok && se.Sel.Name == "Inc" && types.ExprString(se.X) == cursor {
+					return true
+				}
+			}
+		}
+	}
+	return false
+}
+
 // shift loops: for v := lo; v <= hi; v++ { if A[v+a+1] == A[v+a] { A[v+a+1] += 1 } }
 func c10ShiftLoops(p *Prog, r *Report, x *Exec) {
 	type want struct {
@@ -783,10 +849,11 @@ func c10ShiftLoops(p *Prog, r *Report, x *Exec) {
 		w := &wants[wi]
 		// lowest constant or counter-based slot stored in Input outside the shift loop
 		lowest := int64(1 << 30)
+		lowestConst := int64(1 << 30) // slot written with a constant index: a pseudo-event that is not read from the schedule
 		for _, e := range x.Events {
 			if e.Kind == "assign" && e.Root == w.root && len(e.Idx) == 1 && !e.Val.MentionsRoot(w.root) {
-				if c, ok := e.Idx[0].ConstInt(); ok && c < lowest {
-					lowest = c
+				if c, ok := e.Idx[0].ConstInt(); ok && c < lowestConst {
+					lowestConst = c
 				}
 			}
 		}
@@ -826,6 +893,13 @@ func c10ShiftLoops(p *Prog, r *Report, x *Exec) {
 					}
 				}
 			}
+		}
+		// lowest = first slot the schedule reader fills; a constant slot below it is a pseudo-event (fertiliser slot 0:
+		// residues of the initial crop, dated on the start day)
+		pseudo := lowestConst < lowest
+		if lowest == int64(1<<30) {
+			lowest = lowestConst
+			pseudo = false
 		}
 		w.first = lowest
 		found := false
@@ -868,10 +942,22 @@ func c10ShiftLoops(p *Prog, r *Report, x *Exec) {
 					return Poly{}, false
 				})
 				fc, isC := first.ConstInt()
-				det += fmt.Sprintf("; pairs (%s,%s) for %s = %s..%s; first compared slot %s, first stored slot %d", lo, hi, L.Var.Root, blo, bhi, first, w.first)
+				det += fmt.Sprintf("; pairs (%s,%s) for %s = %s..%s; first compared slot %s, first scheduled slot %d", lo, hi, L.Var.Root, blo, bhi, first, w.first)
 				if !isC || fc > w.first {
 					ok = false
-					det += " — the first stored event is never compared with its successor (two events on that day collapse onto one day and the cursor sticks)"
+					det += " — the first scheduled event is never compared with its successor (two events on that day collapse onto one day and the cursor sticks)"
+				}
+				if pseudo && isC {
+					multi, where := c10AppliesAllDue(p, w.root)
+					switch {
+					case fc <= lowestConst:
+						// the pseudo-event takes part in the de-duplication: a scheduled event on the start day is pushed behind it
+						r.Ob(w.name+":start-day", p.Pos(e.Pos), false, fmt.Sprintf("slot %d is not a scheduled event (it is stored with a constant index, dated on the start day) but takes part in the same-day shift: an event scheduled on the start day is moved one day and carried out two days after its date; a second one on that day keeps the start day, is never due, and blocks the rest of the schedule", lowestConst))
+					case !multi:
+						r.Ob(w.name+":start-day", p.Pos(e.Pos), false, fmt.Sprintf("slot %d (pseudo-event on the start day) is left out of the same-day shift, but the routine that carries the events out handles one event per day (%s): an event scheduled on the start day is never due and blocks the schedule", lowestConst, where))
+					default:
+						r.Ob(w.name+":start-day", p.Pos(e.Pos), true, fmt.Sprintf("slot %d (pseudo-event on the start day) is left out of the same-day shift and every event due on a day is carried out on that day (%s)", lowestConst, where))
+					}
 				}
 				// last pair reaches the last stored slot: hi(v:=bhi) ≥ count−1 … expressed on the counter: bhi mentions the reader's counter
 				lastHi := hi.Subst(func(a *Atom) (Poly, bool) {
